@@ -134,6 +134,8 @@ def replay_roundtrip(n, pad, model):
 
 
 def add(run, tier):
+    from contracts.encoder_c import EncodeTask, IsFastTask
+    run.add(EncodeTask('C03'), IsFastTask())
     ls = list(range(0, 224))
     for pad in (False, True):
         for ch in chunks(ls, 16):
